@@ -385,6 +385,26 @@ pub fn run(ctx: Arc<Ctx>) {
 		let d = codec::pm_decode(&codec::pm_encode(t, 2, 1, META, l)).expect("pm self decode");
 		assert_eq!(&d.tiles, t, "{l:?}");
 	}
+	// versatiles: blocks of one level whose own extents differ on both sides (a narrow block and a wide one in the same
+	// block column and row), under every layout; opened several times each, because the reader keeps the block records
+	// in a hash map whose order differs from one opening to the next
+	{
+		let rt = tokio::runtime::Builder::new_current_thread().build().unwrap();
+		let mut fam = TileMap::new();
+		for (x, y) in [(100u32, 10u32), (110, 10), (120, 12), (50, 300), (200, 300), (120, 256), (300, 40), (310, 200), (260, 100), (500, 100), (300, 300), (400, 500), (290, 290), (480, 310)] {
+			fam.insert((9, x, y), format!("b {x} {y}").into_bytes());
+		}
+		fam.insert((3, 1, 1), b"low".to_vec());
+		let mut n = 0u64;
+		for (li, l) in VtLayout::all().into_iter().enumerate() {
+			let bytes = codec::vt_encode(&fam, 0x10, 0, META, l);
+			for rep in 0..if li % 4 == 0 { 6 } else { 2 } {
+				check_opened(&ctx, &rt, Cont::Versatiles, &format!("versatiles {l:?} over blocks of differing extents (opening {rep})"), &Written::Bytes(bytes.clone()), &fam, false, json!({"cont": "versatiles", "layout": l, "set": "blocks of differing extents"}));
+				n += 1;
+			}
+		}
+		ctx.outcome_n("versatiles containers with blocks of differing extents x layouts x openings", n);
+	}
 	// what a foreign container declares about its tiles: every tile type and compression code of the published layouts
 	// (versatiles v02 header bytes 14 / 15, PMTiles v3 header bytes 98 / 99, the MBTiles 'format' row, the file name
 	// extensions of tar members and directory entries) must be reported as the format / compression it stands for
